@@ -165,9 +165,7 @@ theorem str_run {τ} (k : Kind) (c : Ctx) (mk : Tok → Pos) (closed : AS)
     ∀ (l : List UInt8) (t : Tok), t.isStr = true → ∀ (fuel p : Nat) (st : List AS) (r : Regs τ),
       At data p l → r.p = p → l.length + 1 ≤ fuel →
       match strScanT t l with
-      | some rest => ∃ fuel', rest.length + 1 ≤ fuel' ∧
-          contL (machine k) data h fuel ⟨c, mk t⟩ st r =
-            contL (machine k) data h fuel' closed st { r with p := ((data.size - rest.length : Nat) : Int) }
+      | some rest => Reach (machine k) data h fuel ⟨c, mk t⟩ st r rest closed st
       | none => IsErr (contL (machine k) data h fuel ⟨c, mk t⟩ st r) := by
   intro l
   induction l with
@@ -179,6 +177,7 @@ theorem str_run {τ} (k : Kind) (c : Ctx) (mk : Tok → Pos) (closed : AS)
     exact eof_stops k _ data h r (hnf t ht)
   | cons x rest ih =>
     intro t ht fuel p st r hat hp hf
+    unfold Reach
     rw [contL_cons (machine k) data h _ _ _ r p x rest hp hat]
     obtain ⟨fuel, rfl⟩ : ∃ f, fuel = f + 1 := ⟨fuel - 1, by omega⟩
     obtain ⟨hb, hlt, hat'⟩ := hat.cons_inv
@@ -188,9 +187,9 @@ theorem str_run {τ} (k : Kind) (c : Ctx) (mk : Tok → Pos) (closed : AS)
     -- a transition without actions to another string state continues by induction
     have goto : ∀ (t' : Tok), t'.isStr = true → (machine k).step ⟨c, mk t⟩ x = ([], some ⟨c, mk t'⟩) →
         match strScanT t' rest with
-        | some rest' => ∃ fuel', rest'.length + 1 ≤ fuel' ∧
+        | some rest' => ∃ (fuel' p' : Nat), At data p' rest' ∧ rest'.length + 1 ≤ fuel' ∧
             loopL (machine k) data h (fuel + 1) ⟨c, mk t⟩ st r =
-              contL (machine k) data h fuel' closed st { r with p := ((data.size - rest'.length : Nat) : Int) }
+              contL (machine k) data h fuel' closed st { r with p := (p' : Int) }
         | none => IsErr (loopL (machine k) data h (fuel + 1) ⟨c, mk t⟩ st r) := by
       intro t' ht' hs
       rw [loopL_goto (machine k) data h fuel _ _ st r p x rest hsm hp hat hs]
@@ -203,10 +202,8 @@ theorem str_run {τ} (k : Kind) (c : Ctx) (mk : Tok → Pos) (closed : AS)
       by_cases h34 : x = 34
       · subst h34
         simp only [beq_self_eq_true, if_true] at hst ⊢
-        refine ⟨fuel, hf', ?_⟩
+        refine ⟨fuel, p + 1, hat', hf', ?_⟩
         rw [loopL_goto (machine k) data h fuel _ _ st r p 34 rest hsm hp hat hst]
-        have : ((data.size - rest.length : Nat) : Int) = ((p + 1 : Nat) : Int) := by omega
-        rw [this]
       · have h34' : (x == 34) = false := by simpa using h34
         simp only [h34', Bool.false_eq_true, if_false] at hst ⊢
         by_cases h92 : x = 92
